@@ -114,6 +114,10 @@ impl<R: Read + Seek> ReadBox<&mut R> for Avc1Box {
                     "avc1 box contains a box with a larger size than it",
                 ));
             }
+            if s == 0 {
+                // A zero-size child never advances the stream: stop instead of looping forever.
+                return Err(Error::InvalidData("avcc not found"));
+            }
             if name == BoxType::AvcCBox {
                 let avcc = AvcCBox::read_box(reader, s)?;
 
